@@ -15,6 +15,7 @@ from ..astutil import (Locals, anon, call_name, cfg_of, constructs_error, local_
 from ..cfg import ENTRY, EXIT, walk_own
 from ..charclass import S
 from ..core import PKG, Report
+from ..domain import CONFIG, CONST, ENUM, ESC, IDENT, NUM, WORD, is_esc
 from ..jinja_interp import expr_text
 from ..pe import StringCollector
 from ..skelscan import strip_strings
@@ -33,6 +34,7 @@ _KW = {"if", "else", "elif", "for", "in", "is", "not", "and", "or", "return", "d
        "except", "finally", "raise", "with", "while", "pass", "None", "True", "False", "lambda", "await", "async"}
 
 
+_OWN_TEXT = {CONST, ENUM, NUM, IDENT, WORD, CONFIG}  # text the generator makes itself: literals, members, numbers, sanitised names, configuration
 _FIELD = re.compile(r"\{[^{}]*\}")
 _IMPORT_LINE = re.compile(r"\s*(from\s+\S+\s+import|import)\s")
 
@@ -918,12 +920,18 @@ def run(rep: Report, ctx: Any) -> str:
                       "no pass mixes attributes with and without default, passes without default come first; positional parameters do not "
                       "carry defaults out of order")
     rep.rule("R01.5", "lexical neutrality: every template block leaves the lexer of the generated language in the state it found it; no "
-                      "newline-inserting filter inside a single-line string")
+                      "newline-inserting filter inside a single-line string; inside a triple-quoted literal no hole that can carry document "
+                      "text stands directly before the closing delimiter unless its escaping neutralises the quote character and the "
+                      "backslash (the last character of the text would lengthen or swallow the delimiter)")
     rep.rule("R01.6", "dispatch totality (shared with C06 R06.3)")
     rep.rule("R01.7", "a name that starts with an underscore never yields a python name that starts with one")
     rep.rule("R01.8", "argument lists have no duplicate: every rename made while resolving parameter / attribute name conflicts is followed "
                       "by a re-check (parameters: recorded in the set whose test decides between a further pass and success; attributes: "
                       "equality test of the two python names)")
+    rep.rule("R01.10", "nothing that remains imports a module that was removed - the thread of dependants is unbroken: the identities a piece "
+                       "has to be removed with (what the registry of dependencies records for a reference) are handed down to everything "
+                       "that is built inside the piece: a function that receives them passes them, or a collection that contains them, to "
+                       "every function it calls that accepts them (the registry's own methods apart)")
     rep.rule("R01.9", "no stale module: every directory that receives files whose names depend on the document is emptied earlier in the "
                       "same run, on every path")
 
@@ -1214,6 +1222,26 @@ def run(rep: Report, ctx: Any) -> str:
         if ("STR1" in e.kind) and re.search(r"\|(wordwrap|indent|center)\b", e.expr):
             rep.fail("R01.5", f"{e.template}::{e.macro}::{e.expr}", "a newline-inserting filter is applied inside a single-line string literal",
                      where=f"{PKG}/templates/{e.template}:{e.line}")
+    # the closing delimiter of a triple-quoted literal: a hole directly in front of it (no padding, or padding stripped by whitespace
+    # control) lets the LAST character of the text meet the delimiter - a quote makes it four quotes, a backslash escapes its first
+    # quote - so the text there must be the generator's own (literals, sanitised names, numbers, configuration) or escaped for both
+    n_tq = 0
+    glued: list[str] = []
+    for e in sorted(ji.emissions.values(), key=lambda e_: (e_.template, e_.macro, e_.expr, e_.kind)):
+        if "STR3" not in e.kind or not e.labels:
+            continue
+        n_tq += 1
+        q = e.kind[-1]
+        loose = sorted(l for l in e.labels if l not in _OWN_TEXT and not (is_esc(l) and {q, "\\"} <= set(l[len(ESC):])))
+        if not e.follow_ok and loose:
+            glued.append(f"{e.template}:{e.line}")
+            rep.fail("R01.5", f"{e.template}::{e.macro}::{e.expr}::closing-delimiter@{e.kind}",
+                     f"text labelled {loose} is emitted directly before the closing {q * 3}: a text that ends in {q} or in a backslash leaves the "
+                     "literal unterminated (SyntaxError, the module cannot be imported)", where=f"{PKG}/templates/{e.template}:{e.line}",
+                     lhs=sorted(e.labels), rhs=f"padding before the delimiter, or text escaped for {q} and backslash")
+    rep.check(not glued, "R01.5", "templates::triple-quoted::closing-delimiter-padded", f"document text directly before a closing triple quote: {glued[:3]}",
+              where="", lhs=len(glued), rhs=0)
+    rep.floor("triple_quoted_holes", n_tq, 10)
     # ---- R01.6 ------------------------------------------------------------------------------------------------------------------------
     for dk, d in sorted(ji.dispatches.items(), key=lambda kv: (kv[1].template, kv[1].macro, kv[1].expr)):
         rep.check(not d.missing_in, "R01.6", f"{d.template}::{d.macro}::{d.alias}.{d.attr}",
@@ -1238,6 +1266,8 @@ def run(rep: Report, ctx: Any) -> str:
     _renames_rechecked(rep, ctx)
     # ---- R01.9 --------------------------------------------------------------------------------------------------------------------------
     _rebuilt_from_empty(rep, ctx)
+    # ---- R01.10 -------------------------------------------------------------------------------------------------------------------------
+    _dependants_handed_down(rep, ctx)
     rep.not_decided += ["syntactic validity of the composition of fragments for every document; validity of pyproject.toml beyond its string contexts"]
     return LEVEL
 
@@ -2005,6 +2035,139 @@ def _rebuilt_from_empty(rep: Report, ctx: Any) -> None:
                   f"removed earlier in the run on every path ({bad}): on regeneration, modules of an earlier document survive and import "
                   "model modules that no longer exist (ModuleNotFoundError)", e0.where,
                   lhs=sorted({f"{short(e.func)}::{e.what}" for e, _ in sites}), rhs=f"each dominated by rmtree of {d or '/'} or of a directory above it")
+
+
+# ---- R01.10 ---------------------------------------------------------------------------------------------------------------------------
+_EMPTY = ("set()", "frozenset()", "None", "()", "[]", "{}")
+
+
+def _dependants_handed_down(rep: Report, ctx: Any) -> None:
+    """R01.10.  When the definition of a class fails, everything that depends on it is removed with it, so that nothing that is written
+    imports a module that is not (ModuleNotFoundError otherwise).  What depends on a reference is recorded by the registry of the
+    schemas (the methods of Schemas that write `self.dependencies`): the *dependants* they are handed.  A piece that is built inside
+    another one (the item of an array, the member of a union, the property of a model) depends on whatever the enclosing piece depends
+    on; it learns that only by being handed the enclosing piece's dependants.  Necessary condition, for the parameter(s) through which
+    the registry receives them (read off the registry, `roots` today):
+      a function that has the parameter passes, at every call of a function of the package that accepts it, a value that contains
+        what it received: the parameter; a display that unpacks it; a union / copy of it; a local all of whose bindings are such;
+    (Not claimed: that a function which cannot carry the parameter never leads to one that accepts it - EnumProperty.build makes the
+    union of a nullable enum from schemas it writes itself, which refer to nothing.)  What the registry itself is told is C08 R08.6.
+    A call that leaves the parameter to its default, passes a fresh collection or one made from something else is reported."""
+    ix = ctx.py
+    sch = ix.cls("Schemas")
+    slots: set[str] = set()
+    recorders: set[str] = set()
+    for m in sch.methods.values():
+        params = {a.arg for a in m.params} - {"self"}
+        for n in ast.walk(m.node):
+            held: list[ast.AST] = []
+            if isinstance(n, ast.Call) and isinstance(n.func, ast.Attribute) and n.func.attr in ("update", "add", "union", "extend", "append") and \
+                    "self.dependencies" in norm(n.func.value):
+                held = list(n.args)
+            elif isinstance(n, (ast.Assign, ast.AugAssign)) and any("self.dependencies" in norm(t) for t in (n.targets if isinstance(n, ast.Assign) else [n.target])):
+                held = [n.value]
+            got = {x for h in held for x in names_in(h)} & params
+            if got:
+                slots |= got
+                recorders.add(m.qual)
+    rep.require(slots, "the parameter through which Schemas records the dependants of a reference (a method that adds to self.dependencies)")
+
+    def accepts(g: Any, slot: str) -> bool:
+        return slot in {a.arg for a in g.params}
+
+    def callees(f: Any, c: ast.Call) -> list[Any]:
+        """functions of the package the call may enter: as _callees, a plain name also through the module's imports or (unique) anywhere in
+        the package, a method of an unknown receiver when one class of the package defines a method of that name"""
+        got = _callees(ix, f, c)
+        if got:
+            return got
+        cn = call_name(c)
+        head, _, last = cn.rpartition(".")
+        if head == "":
+            r = ix.resolve(f.module, last)
+            if r and r[0] == "func":
+                return [r[1]]
+            hs = [h for h in ix.all_functions if h.cls is None and h.parent is None and h.name == last]
+            return hs if len(hs) == 1 else []
+        hs = [h for h in ix.all_functions if h.cls is not None and h.name == last and h.kind != "property"]
+        return hs if len({h.cls.qual for h in hs}) == 1 else []
+
+    def passed(g: Any, c: ast.Call, slot: str, lc: Locals) -> "tuple[bool, ast.AST | None]":
+        """(decidable, argument passed for the parameter or None when it is left to its default)"""
+        b = _bind(g, c)
+        if slot in b:
+            return True, b[slot]
+        for k in c.keywords:
+            if k.arg is None:  # **mapping: the entry of a mapping written down in the function, else not decidable
+                vals = lc.values_of(k.value.id) if isinstance(k.value, ast.Name) else [k.value]
+                if len(vals) != 1:
+                    return False, None
+                v = vals[0]
+                if isinstance(v, ast.Dict) and all(isinstance(x, ast.Constant) for x in v.keys):
+                    hit = [y for x, y in zip(v.keys, v.values) if x.value == slot]
+                elif isinstance(v, ast.Call) and call_name(v) == "dict" and not v.args and all(x.arg for x in v.keywords):
+                    hit = [x.value for x in v.keywords if x.arg == slot]
+                else:
+                    return False, None
+                if hit:
+                    return True, hit[0]
+        if any(isinstance(a, ast.Starred) for a in c.args):
+            return False, None
+        return True, None
+
+    def contains(e: "ast.AST | None", slot: str, lc: Locals, seen: frozenset = frozenset()) -> bool:
+        """the value of e contains everything the function received for the parameter"""
+        if e is None:
+            return False
+        if isinstance(e, ast.Name):
+            if e.id in seen:
+                return e.id == slot
+            defs = [(k, v) for k, _, v in lc.defs.get(e.id, []) if not k.startswith("aug")]  # `x |= ...` only adds
+            if e.id == slot:  # the parameter, possibly re-bound from itself (`roots = roots or set()`)
+                return all(v is not None and contains(v, slot, lc, seen | {slot}) for _, v in defs)
+            return bool(defs) and all(k.startswith("assign") and "[" not in k and contains(v, slot, lc, seen | {e.id}) for k, v in defs)
+        if isinstance(e, ast.NamedExpr):
+            return contains(e.value, slot, lc, seen)
+        if isinstance(e, (ast.Set, ast.List, ast.Tuple)):
+            return any(isinstance(x, ast.Starred) and contains(x.value, slot, lc, seen) for x in e.elts)
+        if isinstance(e, ast.BinOp) and isinstance(e.op, (ast.BitOr, ast.Add)):
+            return contains(e.left, slot, lc, seen) or contains(e.right, slot, lc, seen)
+        if isinstance(e, ast.BoolOp) and isinstance(e.op, ast.Or):  # `roots or set()`: falsy dependants are no dependants
+            return contains(e.values[0], slot, lc, seen)
+        if isinstance(e, ast.IfExp):  # both arms, an empty arm only where the test asks the parameter itself
+            arms = [e.body, e.orelse]
+            full = [contains(a, slot, lc, seen) for a in arms]
+            return any(full) and all(ok or (norm(a) in _EMPTY and slot in names_in(e.test)) for a, ok in zip(arms, full))
+        if isinstance(e, ast.Call):
+            cn = call_name(e)
+            if cn in ("set", "frozenset", "list", "tuple", "sorted", "copy", "copy.copy", "copy.deepcopy", "deepcopy") and len(e.args) == 1:
+                return contains(e.args[0], slot, lc, seen)
+            if isinstance(e.func, ast.Attribute) and e.func.attr in ("copy", "union", "__or__"):
+                return contains(e.func.value, slot, lc, seen) or (e.func.attr != "copy" and any(contains(a, slot, lc, seen) for a in e.args))
+        return False
+
+    n_fw = 0
+    for slot in sorted(slots):
+        for f in ix.all_functions:
+            if not accepts(f, slot) or f.qual in recorders:
+                continue
+            lc = Locals(f.node)
+            for c in ast.walk(f.node):
+                if not isinstance(c, ast.Call):
+                    continue
+                for g in callees(f, c):
+                    if not accepts(g, slot) or g.qual in recorders:  # what the registry itself is told is another matter (C08 R08.6)
+                        continue
+                    decidable, arg = passed(g, c, slot, lc)
+                    if not decidable:
+                        continue
+                    n_fw += 1
+                    gname = f"{g.cls.name}.{g.name}" if g.cls is not None else g.name
+                    rep.check(contains(arg, slot, lc), "R01.10", f"{short(f)}->{gname}::hands-down-{slot}",
+                              f"{short(f)} receives `{slot}` but does not hand them on here: what is built by this call is not removed together with "
+                              "the enclosing piece, and a module that imports a removed class survives (ModuleNotFoundError at import)",
+                              where(f, c), lhs=norm(arg) if arg is not None else "left to its default", rhs=f"{slot} or a collection that contains it")
+    rep.floor("dependants_handed_down", n_fw, 6)
 
 
 def _bind(g: Any, call: ast.Call) -> dict[str, ast.AST]:
